@@ -13,9 +13,9 @@ pub const DEF: PropDef = PropDef {
     run,
     replay,
     level: "exploration",
-    rule: "negative differential: a consistent session spec (handshake string, suite, keys, PSKs, prologue) plus one disagreement between the peers (and random combinations of several): protocol name with identical structure but different string (modifier order permuted; custom names of equal length differing in one byte at any position incl. beyond HASHLEN), different hash of equal length, different cipher, sibling pattern (deferred variant) with the same message count; prologue differing in one bit / in length / empty vs non-empty; one bit of one PSK; a different valid pre-shared static key on either side. Oracle: running the handshake as far as calls succeed never ends with both sides finished and no error; if both could be converted, no transport message of one is accepted by the other. The same spec WITHOUT the disagreement completes (control run in the same case). Non-trivial = control completes and the disagreement was applicable; distinct by (name, suite, disagreement)",
+    rule: "negative differential: a consistent session spec (handshake string, suite, keys, PSKs, prologue) plus one disagreement between the peers (and random combinations of several): protocol name with identical structure but different string (modifier order permuted; custom names of equal length differing in one byte at any position incl. beyond HASHLEN), different hash of equal length, different cipher, sibling pattern (deferred variant) with the same message count; prologue differing in one bit / in length / empty vs non-empty; one bit of one PSK; a different valid pre-shared static key on either side, the right key with one bit changed (X25519: bit 255, i.e. the same point in another encoding). Oracle: running the handshake as far as calls succeed never ends with both sides finished and no error; if both could be converted, no transport message of one is accepted by the other. The same spec WITHOUT the disagreement completes (control run in the same case). Non-trivial = control completes and the disagreement was applicable; distinct by (name, suite, disagreement)",
     technique: "negative differential testing (control session vs. session with one injected context disagreement); enumeration over all handshake strings + proptest combinations",
-    assumptions: &["two encodings of the same X25519 point are not judged here (not a 'different key' by this statement)"],
+    assumptions: &["a pre-shared X25519 key with bit 255 set is judged as a different key: the specification hashes the key bytes as given (MixHash(rs) in the pre-message), so peers configured with different byte strings must not get a channel"],
     panic_is_violation: false,
     needs_refnoise: false,
 };
@@ -40,6 +40,10 @@ pub enum Dis {
     PskBit(u8, usize),
     /// wrong pre-shared static key given to: true = the initiator, false = the responder
     StaticKey(bool),
+    /// the pre-shared static key given to one side (true = the initiator) is the peer's key with
+    /// one bit changed: bit 255 for X25519 (another encoding of the same point - the DH outputs
+    /// agree, only the transcript can tell), `bit` for P-256 where applicable
+    StaticKeyBit(bool, u16),
 }
 
 #[derive(Clone, Debug, Serialize, Deserialize)]
@@ -175,6 +179,26 @@ fn apply(spec: &SessionSpec, dis: &[Dis]) -> Option<(SessionSpec, EpOverrides, S
                     oi.rs_value = Some(wrong);
                 } else {
                     or.rs_value = Some(wrong);
+                }
+            },
+            Dis::StaticKeyBit(to_initiator, bit) => {
+                let pat = spec.pattern();
+                if !pat.role_needs_remote_static(*to_initiator) {
+                    return None;
+                }
+                let mut k = spec.s_pub(!*to_initiator);
+                if spec.suite.dh == crate::refcrypto::DhKind::X25519 {
+                    k[31] ^= 0x80;
+                } else {
+                    // P-256: a bit of the x coordinate (almost always an invalid point: the
+                    // handshake must then fail at the DH, which is fine) or of the y coordinate
+                    let b = 8 + (*bit as usize % 512);
+                    k[b / 8] ^= 1 << (b % 8);
+                }
+                if *to_initiator {
+                    oi.rs_value = Some(k);
+                } else {
+                    or.rs_value = Some(k);
                 }
             },
         }
@@ -338,6 +362,8 @@ fn kinds_for(spec: &SessionSpec, k: u64) -> Vec<Dis> {
         Dis::PskBit((k % 5) as u8, (k % 256) as usize),
         Dis::StaticKey(true),
         Dis::StaticKey(false),
+        Dis::StaticKeyBit(true, k as u16),
+        Dis::StaticKeyBit(false, (k * 3) as u16),
     ]
 }
 
